@@ -1579,6 +1579,8 @@ def to_spec(expr: str) -> str:
     e = re.sub(r'([A-Za-z_][A-Za-z0-9_.]*)\s*\.\s*(?:vx_)?starts_with\s*\(\s*&?\s*([a-z_][a-z0-9_]+)\s*\)', r'vx::is_sub_at(\1@, \2@, 0)', e)
     # STR.contains(c) with a single-letter (char) argument
     e = re.sub(r'([A-Za-z_][A-Za-z0-9_.]*)\s*\.\s*(?:vx_)?contains\s*\(\s*([a-z])\s*\)', r'vx::contains_seq(\1@, seq![\2])', e)
+    # X.is_empty() on a Vec / String place: exec only; its specification is `X@.len() == 0`
+    e = re.sub(r'([A-Za-z_][A-Za-z0-9_.]*)\s*\.\s*is_empty\s*\(\s*\)', r'(\1@.len() == 0)', e)
     e = e.replace('.as_str()@', '@')
     e = re.sub(r'([A-Za-z_][A-Za-z0-9_.]*)\s*\.\s*as_ref\s*\(\s*\)', r'vx::opt_ref(&\1)', e)
     return e
